@@ -169,7 +169,22 @@ ShGate ==      \* the gate: set is_shutdown
 G_ShLock2 == pc[SH] = "sh_lock2" /\ lock = NoOne
 ShLock2 ==     \* (repaired) with self._lock: snapshot; then sweep, delegate.shutdown
   /\ G_ShLock2
-  /\ Finish(tracked)
+  \* seeded model bug snapshot_live_iteration (change C10-r5m1): the snapshot is a comprehension over the LIVE set, which the
+  \* done-callbacks of finishing futures shrink without the lock: a completion in the middle of it raises ("Set changed
+  \* size during iteration") out of shutdown() - after the flag was set, before the sweep and the delegate's shutdown
+  /\ IF Bug = "snapshot_live_iteration"
+       THEN /\ stale' = tracked /\ pc' = [pc EXCEPT ![SH] = "sh_iter"] /\ NoEmit /\ UNCHANGED <<fst, tracked>>
+       ELSE /\ Finish(tracked) /\ UNCHANGED stale
+  /\ actor' = SH
+  /\ UNCHANGED <<cfg, gate, lock, isdown, edl, now>>
+
+G_ShIter == pc[SH] = "sh_iter"
+ShIter ==      \* (model bug only) the iteration ends: unharmed, or with the exception
+  /\ G_ShIter
+  /\ IF tracked = stale
+       THEN Finish(tracked)
+       ELSE /\ pc' = [pc EXCEPT ![SH] = "done"] /\ UNCHANGED <<fst, tracked>>
+            /\ Emit(<<Ev("ShutdownRaise", "-", "shutdown", now, -1, -1, -1, -1, -1, "top", <<>>)>>)
   /\ actor' = SH
   /\ UNCHANGED <<stale, cfg, gate, lock, isdown, edl, now>>
 
@@ -183,7 +198,7 @@ OEnd ==
 
 AnyEnabled ==
   \/ \E j \in Jobs : G_SSleep(j) \/ G_SGate(j) \/ G_SLock(j) \/ G_SLate(j) \/ G_EFinish(j)
-  \/ G_ShSleep \/ G_ShLock1 \/ G_ShSnap \/ G_ShGate \/ G_ShLock2 \/ G_OEnd
+  \/ G_ShSleep \/ G_ShLock1 \/ G_ShSnap \/ G_ShGate \/ G_ShLock2 \/ G_ShIter \/ G_OEnd
 Deadlines ==
   {cfgS[j] : j \in {x \in Jobs : pc[Sub(x)] = "s_sleep"}}
   \cup {edl[j] : j \in {x \in Jobs : pc[Env(x)] = "e_sleep"}}
@@ -197,7 +212,7 @@ Tick ==
 
 Next ==
   \/ \E j \in Jobs : SSleep(j) \/ SGate(j) \/ SLock(j) \/ SLate(j) \/ EFinish(j)
-  \/ ShSleep \/ ShLock1 \/ ShSnap \/ ShGate \/ ShLock2 \/ OEnd \/ Tick
+  \/ ShSleep \/ ShLock1 \/ ShSnap \/ ShGate \/ ShLock2 \/ ShIter \/ OEnd \/ Tick
 Spec == Init /\ [][Next]_vars
 
 ContractHolds == viol = "ok"
